@@ -20,6 +20,7 @@ another puppet's task object; x >= 11 is a foreign object.
 
 from __future__ import annotations
 
+import asyncio
 import json
 import math
 import random
@@ -29,13 +30,14 @@ from asyncio import CancelledError
 import core
 import tiegen
 
-DRIVERS = [("sem", "Sem"), ("limiter", "Limiter")]
+DRIVERS = [("sem", "Sem"), ("limiter", "LimiterEntry")]
 
 INF_CODE = 1000000
 SEM_OPS = {0: "acquire", 1: "acquire_nowait", 2: "release", 3: "Resume", 4: "Cancel",
            5: "acquire_under_cancelled_scope", 6: "CheckPasses"}
 LIM_OPS = {0: "acquire_on_behalf_of", 1: "acquire_on_behalf_of_nowait", 2: "release_on_behalf_of", 3: "Resume",
-           4: "Cancel", 5: "set_total_tokens", 6: "set_total_tokens_bad"}
+           4: "Cancel", 5: "set_total_tokens", 6: "set_total_tokens_bad",
+           10: "acquire_on_behalf_of[in cancelled scope]", 11: "SpinCancel", 12: "SpinReturn", 13: "spinner step/cancel"}
 BAD_TOTALS = [1.5, -1, -math.inf, math.nan, "x"]
 BAD_TOTAL_CODE = [7, 6, 6, 7, 7]
 
@@ -489,6 +491,8 @@ class LimRun(BaseRun):
         self.cancel_req: set[int] = set()
         self.outside = False                   # history left the stated input domain (O2): monitors off
         self.lowered = False
+        self.spinning: dict[int, int] = {}     # task -> borrower: inside acquire_on_behalf_of(), suspended in the entry check
+        self.spin_native: set[int] = set()     # of those: native Task.cancel() requested
         o = self.observe()
         if o != [0, total_code, INF_CODE if total_code < 0 else total_code, 0, 0]:
             self.hit(f"construction parameter total_tokens not honoured: borrowed/total/available/waiting/borrowers = {o} right after CapacityLimiter({tot_val(total_code)})")
@@ -534,10 +538,15 @@ class LimRun(BaseRun):
                     en.append((5, t, v))
                 for k in range(len(BAD_TOTALS)):
                     en.append((6, t, k))
+                for b in bset:
+                    en.append((10, t, b))       # the same call inside an already effectively cancelled scope
             else:
                 if self.world.runnable(p):
                     en.append((3, t, 0))
                 en.append((4, t, 0))
+                if t in self.spinning:
+                    en.append((11, t, 0))       # the AnyIO cancellation is delivered: the call raises
+                    en.append((12, t, 0))       # the check returns after its yield (a shield was raised meanwhile)
         return en
 
     def in_domain(self, op):
@@ -566,7 +575,25 @@ class LimRun(BaseRun):
             v *= w["tot"].get(x, 1.0)
         if c == 6:
             v *= 0.2
+        if c == 10:
+            own = (x == t)
+            v = w.get(10, 0.0) * (w["own"] if own else (w["task_b"] if x <= self.ntasks else w["foreign"]))
+        if c in (11, 12):
+            v = w.get(c, 3.0)
+        if c in (3, 4) and t in self.spinning:
+            v *= 0.3
         return v
+
+    def _run_callbacks(self, t):
+        """the delivery callbacks (AnyIO's _deliver_cancellation retries) of the scopes of task t's cancelled-scope call;
+        those of other spinning tasks stay queued: their delivery is a separate op (11)"""
+        w = self.world
+        p = w.puppets[t]
+        mine = {id(getattr(p, "sc_outer", None)), id(getattr(p, "sc", None))}
+        for h in list(w.loop.ready_handles()):
+            owner = getattr(h._callback, "__self__", None)
+            if not isinstance(owner, asyncio.Task) and id(owner) in mine:
+                w.loop.run_handle(h)
 
     def do(self, c: int, t: int, x: int):
         w, lim = self.world, self.lim
@@ -590,6 +617,56 @@ class LimRun(BaseRun):
                 async def cmd(p):
                     lim.release() if own else lim.release_on_behalf_of(obj)
             out = w.act(t, cmd)
+        elif c == 10:
+            # model op EnterCancelled (LimiterEntry): the call made in an already effectively cancelled scope.  The check
+            # is the first statement: the call sits in checkpoint_if_cancelled() whatever the state of the limiter until
+            # the cancellation is delivered (11), a native cancel reaches it (4, 3) or the check returns (12)
+            CancelScope = self.anyio.CancelScope
+            own = (x == t)
+            obj = self.bobj(x)
+
+            async def cmd(p):
+                with CancelScope() as outer:
+                    p.sc_outer = outer
+                    outer.cancel()
+                    with CancelScope() as mid:        # op 12 raises a shield here while the check is yielding
+                        p.sc = mid
+                        await (lim.acquire() if own else lim.acquire_on_behalf_of(obj))
+                    p.sc = None
+                if outer.cancelled_caught or mid.cancelled_caught:
+                    raise CancelledError("absorbed by the call's own scopes")
+            out = w.act(t, cmd)
+            self.flags.add("acquire_in_cancelled_scope")
+            if before[0] >= tot_val(before[1]) or before[3] > 0:
+                self.flags.add("acquire_in_cancelled_scope_contended")
+            if out is not None and out[0] == "blocked":
+                self.spinning[t] = x
+            else:
+                self.hit(f"acquire_on_behalf_of({x}) by task {t} in an already cancelled scope did not suspend in its cancellation check: {out}")
+        elif c == 11:
+            p = w.puppets[t]
+            self._run_callbacks(t)
+            out = None
+            for _ in range(6):
+                out = w.resume(t)
+                if p.at_decision:
+                    break
+                self._run_callbacks(t)
+            if not p.at_decision:
+                self.hit(f"acquire_on_behalf_of by task {t} in an already cancelled scope was not interrupted within 6 cycles")
+            elif code_of(out) != 2:
+                self.hit(f"acquire_on_behalf_of by task {t} in an already cancelled scope ended with {out} instead of the cancellation")
+        elif c == 12:
+            # another task shields the scope between the caller and the cancelled one: the cancellation is no longer
+            # visible, the delivery finds nobody, the check returns and the call goes on as an ordinary one - on the
+            # limiter as it is NOW
+            p = w.puppets[t]
+            p.sc.shield = True
+            self._run_callbacks(t)
+            out = w.resume(t)
+            self.flags.add("check_yielded_and_returned")
+            if before[0] >= tot_val(before[1]) or before[3] > 0:
+                self.flags.add("check_returned_to_contended_limiter")
         elif c == 3:
             out = w.resume(t)
         elif c == 4:
@@ -611,8 +688,35 @@ class LimRun(BaseRun):
         after = self.observe()
         self.ops += [c, t, x]
         self.outs += [k] + after
+        mc, mx = c, x
+        if t in self.spinning and c in (3, 4, 10, 11, 12):
+            # a call suspended in its entry check: nothing of the limiter may move whatever is done TO that task;
+            # only the check's normal return (12 without a pending native cancel) continues as an ordinary call
+            b = self.spinning[t]
+            native = t in self.spin_native
+            if c == 4:
+                self.spin_native.add(t)
+                if k != 5:
+                    self.hit(f"Task.cancel() of task {t} (in its entry check) reported {k}")
+            elif c == 3:
+                want = 2 if native else 1
+                if k != want:
+                    self.hit(f"step of task {t} in its entry check ({'native cancel pending' if native else 'cancellation still visible'}): res {k}, expected {want}")
+                self.flags.add("entry_check_native_cancel" if native else "entry_check_spins")
+            elif c == 12 and native and k != 2:
+                self.hit(f"task {t}: native cancel pending at the entry check's yield, but the call went on (res {k})")
+            if c == 12 and not native and k != 2:
+                mc, mx = 0, b            # from here on an ordinary acquire_on_behalf_of(b) by t, on the limiter as it is now
+                del self.spinning[t]
+            else:
+                if c in (11, 12) or (c == 3 and k != 1):
+                    del self.spinning[t]
+                    self.spin_native.discard(t)
+                if after != before:
+                    self.hit(f"{LIM_OPS[c]} of task {t} (acquire_on_behalf_of({b}) suspended in its cancellation check) changed the limiter {before} -> {after}")
+                mc = 13
         if not self.outside:
-            self.monitor(c, t, x, k, before, after, run_before, self.runnable_set(), out)
+            self.monitor(mc, t, mx, k, before, after, run_before, self.runnable_set(), out)
 
     # -- property monitors on the observable history (independent of the model) --
     def monitor(self, c, t, x, k, before, after, run_before, run_after, out):
@@ -779,6 +883,8 @@ class LimRun(BaseRun):
     def quiesce(self):
         for _ in range(400):
             progressed = False
+            for t in list(self.spinning):
+                self.do(11, t, 0)
             idle = [t for t, p in self.world.puppets.items() if p.at_decision]
             for t, p in self.world.puppets.items():
                 if not p.at_decision and self.world.runnable(p):
@@ -824,6 +930,8 @@ def op_possible(r, op) -> bool:
         return (not p.at_decision) and r.world.runnable(p)
     if op[0] == 4:
         return not p.at_decision
+    if op[0] in (11, 12) and isinstance(r, LimRun):
+        return (not p.at_decision) and op[1] in r.spinning
     return p.at_decision
 
 
@@ -889,7 +997,8 @@ def random_lim(rng, nsteps, allow_outside=False):
     w = {0: 5, 1: 1.2, 2: 3, 3: 5, 4: rng.choice([0.5, 2, 4]), 5: rng.choice([0.3, 1.0, 2.0]), 6: 0.3,
          "own": 1.0, "task_b": rng.choice([0.02, 0.1]), "foreign": rng.choice([0.05, 0.3, 0.8]),
          "dup": rng.choice([0.3, 2.0, 6.0]),
-         "tot": {-1: 0.4, 0: 1.0, 1: 1.0, 2: 1.0, 3: 0.6}}
+         "tot": {-1: 0.4, 0: 1.0, 1: 1.0, 2: 1.0, 3: 0.6},
+         10: rng.choice([0.0, 0.0, 1.5, 4.0]), 11: 2.0, 12: rng.choice([2.0, 6.0])}
     r = LimRun(total, ntasks)
     with r:
         walk(r, rng, nsteps, w, allow_outside)
@@ -934,7 +1043,18 @@ def lim_small_alphabet(op):
         return x == t
     if c == 5:
         return x in (0, 1, 2)
-    if c == 6:
+    if c in (6, 10):
+        return False
+    return True
+
+
+def lim_entry_alphabet(op):
+    """Small scope for calls whose entry check yields: own-borrower acquire / nowait / release, the same call inside a
+    cancelled scope, its delivery, its normal return, steps and native cancels."""
+    c, t, x = op
+    if c in (0, 1, 2, 10):
+        return x == t
+    if c in (5, 6):
         return False
     return True
 
@@ -948,7 +1068,7 @@ def lim_dup_alphabet(op):
         return x == t
     if c == 2:
         return x in (t, 11)
-    if c in (5, 6):
+    if c in (5, 6, 10):
         return False
     return True
 
@@ -1216,6 +1336,7 @@ def check(tier: str) -> int:
         ex += exhaustive({"prim": "sem", "fast": True, "init": 0, "max": None, "ntasks": 2}, 3)
         ex += exhaustive({"prim": "limiter", "total": 1, "ntasks": 2}, 4, lim_small_alphabet)
         ex += exhaustive({"prim": "limiter", "total": 1, "ntasks": 3}, 4, lim_dup_alphabet)
+        ex += exhaustive({"prim": "limiter", "total": 1, "ntasks": 2}, 4, lim_entry_alphabet)
     else:
         for fast in (False, True):
             for init, mx in ((0, None), (1, 1), (1, None), (2, 2), (0, 1)):
@@ -1226,6 +1347,8 @@ def check(tier: str) -> int:
         ex += exhaustive({"prim": "limiter", "total": 1, "ntasks": 2}, 5, lim_small_alphabet)
         ex += exhaustive({"prim": "limiter", "total": 1, "ntasks": 3}, 5, lim_dup_alphabet)
         ex += exhaustive({"prim": "limiter", "total": 0, "ntasks": 3}, 4, lim_dup_alphabet)
+        ex += exhaustive({"prim": "limiter", "total": 1, "ntasks": 3}, 4, lim_entry_alphabet)
+        ex += exhaustive({"prim": "limiter", "total": 1, "ntasks": 2}, 5, lim_entry_alphabet)
     runs += ex
     # second creation mode: the same script on an object created BEFORE the loop runs (SemaphoreAdapter /
     # CapacityLimiterAdapter); it must be observationally identical, so it is compared with the same model
